@@ -148,7 +148,7 @@ def Revoked.ctx (r : Revoked) (k : OutKind) : Ctx :=
 /-- Verdict of the symbolic interpreter for the justice input of output `k`. -/
 def Revoked.justiceValid (r : Revoked) (k : OutKind) (cltv : Nat) (payHash : Item) : Bool :=
   run (r.ctx k) (r.script k cltv payHash)
-    (r.witness k (.sig (r.signDesc k).signer 1 true))
+    (r.witness k (.sig (r.signDesc k).signer sigHashAll .final))
 
 /-! ### simple-taproot channels
     The commitment outputs are spent through a script path (NUMS internal key),
@@ -163,16 +163,18 @@ def Revoked.tapScript (r : Revoked) (k : OutKind) : Option (List Op) :=
 
 /-- witness below the leaf script and control block: one Schnorr signature (SIGHASH_DEFAULT) -/
 def Revoked.tapWitness (r : Revoked) (k : OutKind) : List Item :=
-  [.sig (r.signDesc k).signer 0 true]
+  [.sig (r.signDesc k).signer sigHashDefault .final]
 
 def Revoked.tapCtx (r : Revoked) (k : OutKind) : Ctx :=
   { version := 2, sequence := r.sequence k, lockTime := 0, tapscript := true }
 
-/-- script path: the leaf accepts the witness; key path: the signer is the internal key. -/
+/-- script-path spends only: the leaf accepts the witness.  Key-path spends
+    (HTLC and second-level outputs: `tapScript = none`) are outside the symbolic
+    model - their validity is established by the real engine alone. -/
 def Revoked.tapJusticeValid (r : Revoked) (k : OutKind) : Bool :=
   match r.tapScript k with
   | some sc => run (r.tapCtx k) sc (r.tapWitness k)
-  | none => decide ((r.signDesc k).signer = r.revocationKey)
+  | none => false
 
 /-- The one configuration in which the breach arbitrator's transaction shape
     (locktime 0) cannot satisfy the victim's own to-remote script. -/
